@@ -11,6 +11,8 @@ import (
 	"os"
 	"path/filepath"
 	"sort"
+	"strings"
+	"sync"
 
 	"k8s.io/klog"
 
@@ -54,7 +56,7 @@ type Op struct {
 
 // Case is one self-contained case of any kind.
 type Case struct {
-	Kind string `json:"kind"` // shard | gateway | history | k8s
+	Kind string `json:"kind"` // shard | gateway | gwhist | history | k8s | stop | stoprt
 	// shard, k8s, history
 	N     int64    `json:"n"`
 	Names []string `json:"names,omitempty"` // hex
@@ -62,6 +64,7 @@ type Case struct {
 	ShardCount int64     `json:"shardCount"`
 	Endpoints  []EP      `json:"endpoints"`
 	Sync       *SyncSpec `json:"sync,omitempty"`
+	Rounds     []SyncSpec `json:"rounds,omitempty"` // gwhist: successive syncs, the published count may change
 	// history
 	Me        string   `json:"me"`
 	StoreType string   `json:"storeType"`
@@ -72,6 +75,13 @@ type Case struct {
 	Items   []string `json:"items"`
 	Saves   []string `json:"saves"`
 	Period0 bool     `json:"period0"`
+	// stop, stoprt: losing a shard held in a k8s store while the API fails writes
+	Periodic bool   `json:"periodic"`         // the store has a periodic flusher (else write-through)
+	Listed   bool   `json:"listed"`           // the upstream is in the lister (its state condition is held)
+	Conds    int    `json:"conds"`            // allocations served before the loss
+	Api      []bool `json:"api,omitempty"`    // stop: does the API accept writes during Stop attempt i
+	FailMs   int64  `json:"failMs,omitempty"` // stoprt: the API fails writes for this long from the loss on
+	PeriodMs int64  `json:"periodMs,omitempty"`
 }
 
 // mode of one run of a case: record failures (else only report pass/fail, for shrinking), count it in the
@@ -106,10 +116,41 @@ func (v *verdict) note(f rig.Failure) {
 }
 
 func (v *verdict) flush(c *rig.Ctx, m mode) int {
+	if v.sev != pass {
+		classMu.Lock()
+		lastClass = v.first[v.sev].Class
+		classMu.Unlock()
+	}
 	if m.record && v.sev != pass {
 		c.Fail(*v.first[v.sev])
 	}
 	return v.sev
+}
+
+// class of the failure the last failing run (on the main goroutine) ended with
+var lastClass string
+var classMu sync.Mutex
+
+// knownClasses: matchers of the `finding:` lines of known_findings.txt for this property. A known finding is
+// recorded (./check prints KNOWN-FINDING) but must not end the search for other violations.
+var knownClasses = map[string]bool{}
+
+func loadKnown() {
+	b, err := os.ReadFile(filepath.Join(os.Getenv("VERIF_DIR"), "known_findings.txt"))
+	if err != nil {
+		return
+	}
+	for _, line := range strings.Split(string(b), "\n") {
+		line = strings.TrimSpace(line)
+		if !strings.HasPrefix(line, "finding:") || !strings.Contains(line, "property=C13 ") {
+			continue
+		}
+		for _, f := range strings.Fields(strings.SplitN(line, "what=", 2)[0]) {
+			if strings.HasPrefix(f, "matcher=") {
+				knownClasses[strings.TrimPrefix(f, "matcher=")] = true
+			}
+		}
+	}
 }
 
 func runCase(c *rig.Ctx, cs Case, m mode) int {
@@ -122,6 +163,12 @@ func runCase(c *rig.Ctx, cs Case, m mode) int {
 		return runHistory(c, cs, m)
 	case "k8s":
 		return runK8s(c, cs, m)
+	case "gwhist":
+		return runGwHist(c, cs, m)
+	case "stop":
+		return runStop(c, cs, m)
+	case "stoprt":
+		return runStopRT(c, cs, m)
 	}
 	if m.record {
 		c.Fail(rig.Failure{Kind: "diff", Class: "c13.bad-case", What: "unknown case kind " + cs.Kind, Case: cs})
@@ -135,8 +182,12 @@ func shrinkName(hx string, fails func(string) bool) string {
 	return rig.Hex(string(b))
 }
 
-func shrink(c *rig.Ctx, cs Case, sev int) Case {
-	fails := func(x Case) bool { return runCase(c, x, mode{}) >= sev }
+func shrink(c *rig.Ctx, cs Case, sev int, class string) Case {
+	// never trade a property violation for a difference, nor one class of violation for another
+	fails := func(x Case) bool {
+		got := runCase(c, x, mode{})
+		return got >= sev && (sev != violates || lastClass == class)
+	}
 	switch cs.Kind {
 	case "shard", "gateway":
 		cs.Names = rig.ShrinkList(cs.Names, func(l []string) bool { x := cs; x.Names = l; return len(l) > 0 && fails(x) })
@@ -157,6 +208,21 @@ func shrink(c *rig.Ctx, cs Case, sev int) Case {
 				cs.Sync = &sy
 			}
 		}
+	case "gwhist":
+		cs.Rounds = rig.ShrinkList(cs.Rounds, func(l []SyncSpec) bool { x := cs; x.Rounds = l; return fails(x) })
+		cs.Names = rig.ShrinkList(cs.Names, func(l []string) bool { x := cs; x.Names = l; return len(l) > 0 && fails(x) })
+		cs.Endpoints = rig.ShrinkList(cs.Endpoints, func(l []EP) bool { x := cs; x.Endpoints = l; return fails(x) })
+		for i := range cs.Rounds {
+			i := i
+			cs.Rounds[i].Leaders = rig.ShrinkList(cs.Rounds[i].Leaders, func(l []EP) bool {
+				x := cs
+				x.Rounds = append([]SyncSpec{}, cs.Rounds...)
+				x.Rounds[i].Leaders = l
+				return fails(x)
+			})
+		}
+	case "stop":
+		cs.Api = rig.ShrinkList(cs.Api, func(l []bool) bool { x := cs; x.Api = l; return fails(x) })
 	case "history":
 		cs.Ops = rig.ShrinkList(cs.Ops, func(l []Op) bool { x := cs; x.Ops = l; return fails(x) })
 		cs.Lister = rig.ShrinkList(cs.Lister, func(l []string) bool { x := cs; x.Lister = l; return fails(x) })
@@ -167,17 +233,23 @@ func shrink(c *rig.Ctx, cs Case, sev int) Case {
 	return cs
 }
 
-var nViolations, nDiffs int
+var nViolations, nDiffs, nKnown int
 
 func try(c *rig.Ctx, cs Case) {
 	if sev := runCase(c, cs, mode{count: true}); sev != pass {
-		if sev == violates {
+		class := lastClass
+		if sev == violates && knownClasses[lastClass] {
+			c.Count("known-finding/" + lastClass)
+			if nKnown++; nKnown > 1 {
+				return // recorded once (shrunk); keep searching for anything else
+			}
+		} else if sev == violates {
 			nViolations++
 		} else if nDiffs++; nDiffs > 4 {
 			c.Count("differences-not-recorded")
 			return // enough examples of the difference: go on searching for a property violation
 		}
-		small := shrink(c, cs, sev)
+		small := shrink(c, cs, sev, class)
 		if runCase(c, small, mode{record: true}) == pass {
 			// the shrunk case passes on a second look (should not happen: runs are deterministic): record the original
 			runCase(c, cs, mode{record: true})
@@ -196,6 +268,7 @@ func silence() {
 
 func main() {
 	silence()
+	loadKnown()
 	rig.Main("C13", func(c *rig.Ctx) {
 		c.SetRule("four streams. shard: 64 names (all byte values, lengths 0-300, plus a fixed pool) x one shard count from {1,2,3,7,8,16,64,1000,65535,2^31-1,2^31,2^32-1,2^32,2^32+3,0,-1,...}: util.GetShardID (twice), clientSets.ShardIDFor with the count as carried by ServerInfo (int32), model, range/determinism/both-sides judges. " +
 			"gateway: a clientSets with scripted shardCount/leaderEndpoints, optionally synced over HTTP from the ServerInfo of a real rateLimiter whose real elector was told a list of leaders; ShardIDFor/ClientFor of 12 names; judge: the client returned addresses the server's leader of the upstream's shard. " +
@@ -223,13 +296,28 @@ func main() {
 					continue
 				}
 				c.Count("corpus")
-				runCase(c, cs, mode{record: true, count: true})
+				if runCase(c, cs, mode{record: true, count: true}) == violates && !knownClasses[lastClass] {
+					nViolations++
+				}
 			}
 		}
 		nShard := c.Budget(2500, 30000)  // x 64 names
 		nGateway := c.Budget(800, 10000) // x 12 names
 		nHistory := c.Budget(1500, 30000) // x 5-60 ops
 		nK8s := c.Budget(400, 5000)
+		nGwHist := c.Budget(400, 6000)  // x 2-5 syncs x 8 names
+		nStop := c.Budget(400, 6000)
+		nStopRT := min(c.Budget(6, 24), 24) // real time: ~2.5 s each, run concurrently
+		var rt []Case
+		for i := 0; i < nStopRT; i++ {
+			rt = append(rt, genStopRT(c, i))
+		}
+		for i := 0; i < nGwHist && nViolations < 3; i++ {
+			try(c, genGwHist(c, i))
+		}
+		for i := 0; i < nStop && nViolations < 3; i++ {
+			try(c, genStop(c, i))
+		}
 		for i := 0; i < nShard && nViolations < 3; i++ {
 			try(c, genShard(c, i))
 		}
@@ -241,6 +329,9 @@ func main() {
 		}
 		for i := 0; i < nK8s && nViolations < 3; i++ {
 			try(c, genK8s(c, i))
+		}
+		if nViolations < 3 {
+			runStopRTBatch(c, rt) // last, and only these run concurrently (with each other)
 		}
 		closeWorld()
 	})
